@@ -38,6 +38,7 @@ mod txlog;
 mod multi;
 mod oblig;
 mod rcv;
+mod keyupd;
 
 pub use snapshot::{PathSnap, Snapshot, SpaceSnap, StreamsSnap};
 pub use inject::{FrameProbe, Inject, StreamProbe};
@@ -127,6 +128,7 @@ fn registry(name: &str) -> Option<Ctor> {
         "streams" => || Box::new(streams::StreamsC::new()),
         "rxpn" => || Box::new(rxpn::RxPnC),
         "rcv" => || Box::new(rcv::RcvC::new()),
+        "keyupd" => || Box::new(keyupd::KeyUpdC::new()),
         _ => return None,
     })
 }
